@@ -544,6 +544,24 @@ def write_replay(ctx, payload):
 
 
 def run_check(plugin, tier, seed):
+    """When GAMA_REPO points at a scratch tree (mutation / seeded-change runs) the regenerated lean/Gama/Gen files are
+    restored afterwards: they are shared by the drivers of several properties and must describe /repo between runs."""
+    if REPO.resolve() == Path("/repo"):
+        return _run_check(plugin, tier, seed)
+    gen = LEAN / "Gama" / "Gen"
+    snap = {f: f.read_bytes() for f in gen.glob("*.lean")}
+    try:
+        return _run_check(plugin, tier, seed)
+    finally:
+        for f in gen.glob("*.lean"):
+            if f not in snap:
+                f.unlink()
+        for f, b in snap.items():
+            if not f.exists() or f.read_bytes() != b:
+                f.write_bytes(b)
+
+
+def _run_check(plugin, tier, seed):
     ctx = Ctx(plugin.ID, tier, seed)
     broken, failures = [], []
     corr = Corr()
